@@ -14,6 +14,14 @@ PROTOCOL_DUNDERS = {
     "__repr__", "__str__", "__contains__", "__reversed__", "__lt__", "__le__", "__gt__", "__ge__",
     "__iadd__", "__getattr__", "__setattr__", "__delattr__",
 }
+READ_API = {
+    "__getitem__", "get", "__len__", "__iter__", "__contains__", "__eq__", "__ne__", "__lt__", "__le__", "__gt__", "__ge__",
+    "__repr__", "__str__", "__call__", "keys", "values", "items", "__reversed__", "index", "count", "__getattr__",
+}
+MUT_API = {
+    "__setitem__", "__delitem__", "pop", "popitem", "clear", "update", "setdefault", "insert", "append", "extend",
+    "__iadd__", "remove", "reverse", "reset", "__setattr__", "__delattr__", "sort",
+}
 NOT_DATA_API = {"__deepcopy__", "__init__", "__init_subclass__", "__subclasshook__", "__class_getitem__"}
 
 WRITE_SINK_FUNCS = {
@@ -128,10 +136,15 @@ class Analysis:
         key = (cls.qualname, name)
         if key in self._kind:
             return self._kind[key]
-        if name in ("__setattr__", "__delattr__", "__getattr__"):
-            kind = {"__setattr__": "mutator", "__delattr__": "mutator", "__getattr__": "reader"}[name]
-            self._kind[key] = kind
-            return kind
+        # The dict / list protocol fixes what is a read and what is a write
+        # (public API names, not implementation): an implementation that
+        # saves from __len__ is a reader that writes, not a mutator.
+        if name in READ_API:
+            self._kind[key] = "reader"
+            return "reader"
+        if name in MUT_API:
+            self._kind[key] = "mutator"
+            return "mutator"
         b, g = self.graph(cls, name)
         kind = "other"
         if any(is_user_mut(n) for n in live(g)) or any(is_save_enter(n) for n in live(g)):
